@@ -389,3 +389,55 @@ func rollbackSig(c fw.Case, outs []string, msg string) bool {
 	}
 	return false
 }
+
+// deviceReference: what a device must hold once everything that can be applied has been applied - the
+// gNMI-sequential effect, in log order, of the requests whose proposal on that target was APPLIED (a
+// refused or unapplied change leaves the device alone; an applied rollback puts back what its change
+// displaced).  Independent of the controller's own record of applied values.
+func deviceReference(reqs []request, st *State) map[int]map[string]string {
+	state := map[int]tstate{}
+	pre := map[int]map[int]tstate{}
+	get := func(t int) tstate {
+		if s, ok := state[t]; ok {
+			return s
+		}
+		s := tstate{live: map[string]string{}}
+		state[t] = s
+		return s
+	}
+	applied := func(t, i int) bool {
+		p := st.Prop[fmt.Sprintf("%d-%d", t, i)]
+		return p != nil && p.Apply == "d"
+	}
+	for n, r := range reqs {
+		i := n + 1
+		if r.rollback == 0 {
+			for _, t := range r.order {
+				s := get(t)
+				if pre[i] == nil {
+					pre[i] = map[int]tstate{}
+				}
+				pre[i][t] = s.clone()
+				if applied(t, i) {
+					gnmiApply(s, r.changes[t])
+					state[t] = s
+				}
+			}
+			continue
+		}
+		k := r.rollback
+		if k < 1 || k >= i || reqs[k-1].rollback != 0 {
+			continue
+		}
+		for _, t := range reqs[k-1].order {
+			if p, ok := pre[k][t]; ok && applied(t, i) {
+				state[t] = p.clone()
+			}
+		}
+	}
+	out := map[int]map[string]string{}
+	for t, s := range state {
+		out[t] = s.live
+	}
+	return out
+}
